@@ -100,7 +100,8 @@ _STR_METHODS = {
     "lower", "upper", "casefold", "strip", "lstrip", "rstrip", "startswith", "endswith", "split",
     "replace", "isdigit", "join", "title", "capitalize",
 }
-_CONTAINER_METHODS = {"get", "items", "keys", "values", "count", "index", "copy"}
+_CONTAINER_METHODS = {"get", "items", "keys", "values", "count", "index", "copy", "append", "extend", "add", "update",
+                      "setdefault", "pop"}  # mutation of containers *local to the lifted fragment*
 _BUILTIN_EXC = {"ValueError": ValueError, "TypeError": TypeError, "KeyError": KeyError,
                 "IndexError": IndexError, "ZeroDivisionError": ZeroDivisionError,
                 "AttributeError": AttributeError, "Exception": Exception}
@@ -358,7 +359,7 @@ class Evaluator:
                 return recv.__dict__[a](*args, **kwargs)
             if isinstance(recv, str) and a in _STR_METHODS:
                 return self._builtin(getattr(recv, a), args, kwargs)
-            if isinstance(recv, (dict, list, tuple)) and a in _CONTAINER_METHODS:
+            if isinstance(recv, (dict, list, tuple, set)) and a in _CONTAINER_METHODS:
                 return self._builtin(getattr(recv, a), args, kwargs)
             raise Unfoldable(f"method call {key} on {type(recv).__name__}")
         raise Unfoldable(f"call of {key}")
